@@ -105,7 +105,7 @@ func c04Alphabet() []Action {
 		cmd("SET", "a", "n", "NX"), cmd("SET", "a", "x", "XX"), cmd("SET", "a", "n", "NX", "EX", "10"), cmd("SET", "a", "g", "GET"),
 		cmd("PERSIST", "a"), cmd("GETEX", "a"), cmd("GETEX", "a", "PERSIST"), cmd("GETEX", "a", "EX", "10"), cmd("GETEX", "a", "PXAT", atMs(2000)),
 		cmd("GET", "a"), cmd("MGET", "a", "l"), cmd("TYPE", "a"), cmd("TTL", "a"), cmd("PTTL", "a"), cmd("EXPIRETIME", "a"), cmd("PEXPIRETIME", "a"), cmd("STRLEN", "a"),
-		cmd("INCR", "a"), cmd("RENAME", "a", "b"), cmd("DEL", "a"), cmd("MSET", "a", "m", "c1", "m", "c2", "m", "c3", "m"),
+		cmd("INCR", "a"), cmd("RENAME", "a", "b"), cmd("RENAME", "l", "a"), cmd("DEL", "a"), cmd("MSET", "a", "m", "c1", "m", "c2", "m", "c3", "m"),
 		cmd("RPUSH", "l", "x"), cmd("LPUSHX", "l", "y"), cmd("LLEN", "l"), cmd("EXPIRE", "l", "10"), cmd("TTL", "l"),
 		adv(1), adv(5000), adv(11000), {K: "tick", N: 0},
 	}
@@ -452,7 +452,10 @@ func c04Step(ref c04Ref, a Action, now int64) *c04Expect {
 		if !alive {
 			e.asMiss = true
 		} else {
-			return nil
+			// value and deadline move together; whatever the destination held (value and deadline) is gone
+			delete(post, key)
+			post[a.A[2]] = k
+			e.reply = okReply
 		}
 	case "DEL":
 		if alive {
@@ -614,9 +617,6 @@ func (c04Check) Run(u Unit, w *Worker) UnitResult {
 		// keys absent in the reference are absent, or expired leftovers
 		for k, got := range post.Alpha[0] {
 			if _, ok := exp.post[k]; ok {
-				continue
-			}
-			if k == "b" { // RENAME target: outside the modelled universe
 				continue
 			}
 			if got.Exp != 0 && got.Exp < now {
